@@ -1,0 +1,38 @@
+//go:build verif
+
+package icc
+
+// Contracts for the verification machinery in /verif (vcgo). Comment-only.
+// pr.reader is a ghost byte stream; p0 = old(pr.reader.pos) is where the 128-byte header
+// starts. Field offsets are those of ICC.1:2010 section 7.2.
+
+//@ func Version.String
+//@   ensures [C16] bcd: result == Sprintf("%d.%d.%d", pv.Major, pv.MinorAndRev>>4, pv.MinorAndRev&0xF)
+
+//@ func ProfileReader.readDateTimeNumber
+//@   ensures [C16] ok: old(pr.reader.avail) >= 12 ==> err == nil && pr.reader.pos == old(pr.reader.pos) + 12 && result == Date(int(be16(pr.reader, old(pr.reader.pos))), int(be16(pr.reader, old(pr.reader.pos)+2)), int(be16(pr.reader, old(pr.reader.pos)+4)), int(be16(pr.reader, old(pr.reader.pos)+6)), int(be16(pr.reader, old(pr.reader.pos)+8)), int(be16(pr.reader, old(pr.reader.pos)+10)))
+//@   ensures [C16,C09] short: old(pr.reader.avail) < 12 ==> err != nil
+
+//@ func ProfileReader.readHeader
+//@   ensures [C16,C08] accepts: old(pr.reader.avail) >= 128 && be32(pr.reader, old(pr.reader.pos)+36) == 0x61637370 ==> result == nil
+//@   ensures [C16] rejects-bad-signature: old(pr.reader.avail) >= 40 && be32(pr.reader, old(pr.reader.pos)+36) != 0x61637370 ==> result != nil
+//@   ensures [C16,C09] rejects-short: old(pr.reader.avail) < 128 ==> result != nil
+//@   ensures [C16,C18] consumed: result == nil ==> pr.reader.pos == old(pr.reader.pos) + 128
+//@   ensures [C16] size: result == nil ==> header.ProfileSize == be32(pr.reader, old(pr.reader.pos))
+//@   ensures [C16] cmm: result == nil ==> uint32(header.PreferredCMM) == be32(pr.reader, old(pr.reader.pos)+4)
+//@   ensures [C16] version: result == nil ==> header.Version.Major == u8(pr.reader, old(pr.reader.pos)+8) && header.Version.MinorAndRev == u8(pr.reader, old(pr.reader.pos)+9)
+//@   ensures [C16] class: result == nil ==> uint32(header.DeviceClass) == be32(pr.reader, old(pr.reader.pos)+12)
+//@   ensures [C16] colorspace: result == nil ==> uint32(header.DataColorSpace) == be32(pr.reader, old(pr.reader.pos)+16)
+//@   ensures [C16] pcs: result == nil ==> uint32(header.ProfileConnectionSpace) == be32(pr.reader, old(pr.reader.pos)+20)
+//@   ensures [C16] created: result == nil ==> header.CreatedAt == Date(int(be16(pr.reader, old(pr.reader.pos)+24)), int(be16(pr.reader, old(pr.reader.pos)+26)), int(be16(pr.reader, old(pr.reader.pos)+28)), int(be16(pr.reader, old(pr.reader.pos)+30)), int(be16(pr.reader, old(pr.reader.pos)+32)), int(be16(pr.reader, old(pr.reader.pos)+34)))
+//@   ensures [C16] signature: result == nil ==> be32(pr.reader, old(pr.reader.pos)+36) == 0x61637370
+//@   ensures [C16] platform: result == nil ==> uint32(header.PrimaryPlatform) == be32(pr.reader, old(pr.reader.pos)+40)
+//@   ensures [C16] flag-embedded: result == nil ==> (header.Embedded <==> be32(pr.reader, old(pr.reader.pos)+44)&1 != 0)
+//@   ensures [C16] flag-depends: result == nil ==> (header.DependsOnEmbeddedData <==> be32(pr.reader, old(pr.reader.pos)+44)&2 != 0)
+//@   ensures [C16] manufacturer: result == nil ==> uint32(header.DeviceManufacturer) == be32(pr.reader, old(pr.reader.pos)+48)
+//@   ensures [C16] model: result == nil ==> uint32(header.DeviceModel) == be32(pr.reader, old(pr.reader.pos)+52)
+//@   ensures [C16] attributes: result == nil ==> header.DeviceAttributes == be64(pr.reader, old(pr.reader.pos)+56)
+//@   ensures [C16] intent: result == nil ==> uint32(header.RenderingIntent) == be32(pr.reader, old(pr.reader.pos)+64)
+//@   ensures [C16] illuminant: result == nil ==> header.PCSIlluminant[0] == be32(pr.reader, old(pr.reader.pos)+68) && header.PCSIlluminant[1] == be32(pr.reader, old(pr.reader.pos)+72) && header.PCSIlluminant[2] == be32(pr.reader, old(pr.reader.pos)+76)
+//@   ensures [C16] creator: result == nil ==> uint32(header.ProfileCreator) == be32(pr.reader, old(pr.reader.pos)+80)
+//@   ensures [C16] id: result == nil ==> forall k int :: 0 <= k && k < 16 ==> header.ProfileID[k] == u8(pr.reader, old(pr.reader.pos)+84+k)
